@@ -1766,15 +1766,49 @@ func (m *Model) errNonNil(v ssa.Value, blk *ssa.BasicBlock, depth int) bool {
 		if f := x.Common().StaticCallee(); f != nil && f.Pkg != nil && (f.Pkg.Pkg.Path() == "fmt" || f.Pkg.Pkg.Path() == "errors") {
 			return true
 		}
-		// a package helper that makes the error: non-nil on each of its returns
+		// an error translator (remapKeyError(err, key)): non-nil whenever the error it is given is
+		if f := x.Common().StaticCallee(); f != nil {
+			if pi, ok := m.errTranslator(f, map[*ssa.Function]bool{}); ok && pi < len(x.Common().Args) {
+				return m.errNonNil(x.Common().Args[pi], blk, depth+1)
+			}
+		}
+		// a package helper that makes or translates the error: each of its returns hands back a
+		// non-nil error, or the error it was given - which is non-nil here
 		if f := x.Common().StaticCallee(); f != nil && m.inPkg(f) && f.Blocks != nil && f.Signature.Results().Len() == 1 {
 			rets := returnsOf(f)
-			for _, ret := range rets {
-				if !m.errNonNil(ret.Results[0], ret.Block(), depth+1) {
+			var okVal func(rv ssa.Value, rb *ssa.BasicBlock, d int) bool
+			okVal = func(rv ssa.Value, rb *ssa.BasicBlock, d int) bool {
+				if d > 4 {
 					return false
 				}
+				if p, isP := rv.(*ssa.Parameter); isP && isErrorType(p.Type()) {
+					for i, q := range f.Params {
+						if q == p && i < len(x.Common().Args) {
+							return m.errNonNil(x.Common().Args[i], blk, depth+1)
+						}
+					}
+					return false
+				}
+				if phi, isPhi := rv.(*ssa.Phi); isPhi {
+					for i, e := range phi.Edges {
+						if !okVal(e, phi.Block().Preds[i], d+1) {
+							return false
+						}
+					}
+					return true
+				}
+				return m.errNonNil(rv, rb, depth+1)
 			}
-			return len(rets) > 0
+			all := len(rets) > 0
+			for _, ret := range rets {
+				if !okVal(ret.Results[0], ret.Block(), 0) {
+					all = false
+				}
+			}
+			if all {
+				return true
+			}
+			// otherwise: a value like any other, possibly tested by the caller (below)
 		}
 	case *ssa.Phi:
 		for i, e := range x.Edges {
@@ -1807,4 +1841,63 @@ func (m *Model) errNonNil(v ssa.Value, blk *ssa.BasicBlock, depth int) bool {
 		}
 	}
 	return len(c.edges) > 0 && !entryReach(fn, c)[blk.Index]
+}
+
+// errTranslator: f has one error parameter and one (error) result, and every return hands back a
+// made error, a sentinel, the parameter itself, or what another translator makes of it. Returns
+// the parameter's index.
+func (m *Model) errTranslator(f *ssa.Function, seen map[*ssa.Function]bool) (int, bool) {
+	if f == nil || !m.inPkg(f) || f.Blocks == nil || seen[f] || f.Signature.Results().Len() != 1 || !isErrorType(f.Signature.Results().At(0).Type()) {
+		return 0, false
+	}
+	seen[f] = true
+	pi := -1
+	for i, p := range f.Params {
+		if isErrorType(p.Type()) {
+			if pi >= 0 {
+				return 0, false
+			}
+			pi = i
+		}
+	}
+	if pi < 0 {
+		return 0, false
+	}
+	var ok func(v ssa.Value, d int) bool
+	ok = func(v ssa.Value, d int) bool {
+		if d > 5 {
+			return false
+		}
+		switch x := v.(type) {
+		case *ssa.Parameter:
+			return x == f.Params[pi]
+		case *ssa.MakeInterface:
+			return true
+		case *ssa.UnOp:
+			_, isG := x.X.(*ssa.Global)
+			return isG && x.Op == token.MUL
+		case *ssa.Phi:
+			for _, e := range x.Edges {
+				if !ok(e, d+1) {
+					return false
+				}
+			}
+			return true
+		case *ssa.Call:
+			g := x.Common().StaticCallee()
+			if g != nil && g.Pkg != nil && (g.Pkg.Pkg.Path() == "fmt" || g.Pkg.Pkg.Path() == "errors") {
+				return true
+			}
+			if gi, isT := m.errTranslator(g, seen); isT && gi < len(x.Common().Args) {
+				return ok(x.Common().Args[gi], d+1)
+			}
+		}
+		return false
+	}
+	for _, ret := range returnsOf(f) {
+		if !ok(ret.Results[0], 0) {
+			return 0, false
+		}
+	}
+	return pi, true
 }
